@@ -113,10 +113,14 @@ def build(ch, with_options=True):
     if ch.choose('container10-shape', ['box', 'union-of-halves']) == 'union-of-halves':
         d.add_surface(26, 'py', [0.0])
         c10.expr = (':', ('*', ('*', 1, -2), ('*', 4, -26)), ('*', ('*', 1, -2), ('*', 26, -5)))
+    # a filled cell may keep a material on its card: MCNP ignores it, the pieces take the fillers' materials
+    keepmat = ch.choose('container-keeps-material', [False, True])
     if fill10:
-        c10.mat = 0; c10.fill = 1; c10.filltr = make_tr(d, t10, sp10, 7)
+        c10.mat = 0 if not keepmat else c10.mat
+        c10.fill = 1; c10.filltr = make_tr(d, t10, sp10, 7)
     if fill11:
-        c11.mat = 0; c11.fill = 1; c11.filltr = make_tr(d, t11, sp11, 8)
+        c11.mat = 0 if not keepmat else c11.mat
+        c11.fill = 1; c11.filltr = make_tr(d, t11, sp11, 8)
     if trcl11 != 'none':
         c11.trcl = make_tr(d, trcl11, sptrcl, 9)
         # the moved cell 11 may reach into the box of cell 10: cut it out
@@ -172,6 +176,9 @@ def build(ch, with_options=True):
     uneg = ch.choose('negative-u', ['none', 'first-cell', 'all-cells'])
     for k, c in enumerate(u1):
         c.u_negative = (uneg == 'all-cells') or (uneg == 'first-cell' and k == 0)
+    # a void cell among the fillers
+    if ch.choose('void-filler', [False, True]):
+        u1[0].mat = 0; u1[0].rho = None
     fimp0 = ch.choose('filler-imp0', [None, 0, 1])
     if fimp0 is not None:
         u1[fimp0].imp = 0
